@@ -22,8 +22,8 @@ pub mod env {
     #[verifier::external_body]
     pub struct IndexedScryptoValue { b: Vec<u8> }
     pub struct DecodeError;
+    #[verifier::external]
     impl core::fmt::Debug for DecodeError {
-        #[verifier::external]
         fn fmt(&self, f: &mut core::fmt::Formatter<'_>) -> core::fmt::Result { Ok(()) }
     }
     pub uninterp spec fn decodable(b: Seq<u8>) -> bool;
@@ -32,6 +32,10 @@ pub mod env {
         pub uninterp spec fn spec_len(&self) -> usize;
         #[verifier::external_body]
         pub fn len(&self) -> (r: usize) ensures r == self.spec_len(), r <= isize::MAX as usize { unimplemented!() }
+        /// does the value own nodes (`owned_nodes()` non-empty)
+        pub uninterp spec fn owns(&self) -> bool;
+        #[verifier::external_body]
+        pub fn owned_nodes(&self) -> (r: &Vec<NodeId>) ensures (r@.len() > 0) == self.owns() { unimplemented!() }
         #[verifier::external_body]
         pub fn from_vec(v: Vec<u8>) -> (r: Result<IndexedScryptoValue, DecodeError>)
             ensures decodable(v@) ==> r == Ok::<IndexedScryptoValue, DecodeError>(decode(v@)), !decodable(v@) ==> r is Err
@@ -62,23 +66,6 @@ pub mod env {
     #[derive(Clone, Copy)]
     pub struct NodeId(pub [u8; 30]);
     pub type DbSubstateValue = Vec<u8>;
-
-    /// radix-engine/src/kernel/call_frame.rs :: TransientSubstates: opaque set of (node, partition, substate key)
-    #[verifier::external_body]
-    pub struct TransientSubstates { _p: () }
-    impl TransientSubstates {
-        pub uninterp spec fn view(&self) -> Set<(NodeId, PartitionNumber, SubstateKey)>;
-        #[verifier::external_body]
-        pub fn new() -> (r: Self) ensures r@ == Set::<(NodeId, PartitionNumber, SubstateKey)>::empty() { unimplemented!() }
-        #[verifier::external_body]
-        pub fn is_transient(&self, node_id: &NodeId, partition_num: PartitionNumber, substate_key: &SubstateKey) -> (r: bool)
-            ensures r == self@.contains((*node_id, partition_num, *substate_key))
-        { unimplemented!() }
-        #[verifier::external_body]
-        pub fn mark_as_transient(&mut self, node_id: NodeId, partition_num: PartitionNumber, substate_key: SubstateKey)
-            ensures final(self)@ == old(self)@.insert((node_id, partition_num, substate_key))
-        { unimplemented!() }
-    }
 
     /// radix-substate-store-interface :: trait DatabaseKeyMapper (the two provided methods the track uses).
     /// ASSUMED: both are functions of their arguments.  (Their injectivity is C16; it is NOT assumed here: all
@@ -152,7 +139,19 @@ pub mod unit {
     /*@item radix-engine/src/track/interface.rs :: enum IOAccess
     @derive
     @*/
+    /*@item radix-engine/src/track/interface.rs :: type NodeSubstates
+    @*/
+    /*@item radix-engine/src/track/interface.rs :: enum TrackedSubstateInfo
+    @derive
+    @*/
+    /*@item radix-engine/src/kernel/call_frame.rs :: struct TransientSubstates
+    @*/
     /*@item radix-engine/src/track/track.rs :: struct MappedTrack
+    @*/
+    /*@item radix-engine/src/track/track.rs :: struct TrackedSubstates
+    @*/
+    /*@item radix-engine/src/track/track.rs :: enum TrackFinalizeError
+    @derive
     @*/
 
     // ==================================================================================================
@@ -212,7 +211,7 @@ pub mod unit {
         if parts(a, n).contains_key(p) { parts(a, n)[p].range_read } else { 0 }
     }
     /// is (n, p, k) a tracked substate / its per-substate state
-    pub open spec fn has(a: Nodes, n: NodeId, p: PartitionNumber, k: DbSortKey) -> bool { subs(a, n, p).contains_key(k) }
+    pub open spec fn cell(a: Nodes, n: NodeId, p: PartitionNumber, k: DbSortKey) -> bool { subs(a, n, p).contains_key(k) }
     pub open spec fn val(a: Nodes, n: NodeId, p: PartitionNumber, k: DbSortKey) -> TrackedSubstateValue { subs(a, n, p)[k].substate_value }
 
     /// what the database holds at a cell (ASSUMED decodable, see db_wf)
@@ -222,44 +221,48 @@ pub mod unit {
     /// ASSUMED about the database: every stored value decodes (the real code panics otherwise: "Failed to decode substate")
     pub open spec fn db_wf(db: Db) -> bool { forall|key: (DbPartitionKey, DbSortKey)| db.contains_key(key) ==> decodable(#[trigger] db[key]) }
 
+    /// is (n, p, sk) marked transient
+    pub open spec fn is_tr(tr: TransientSubstates, n: NodeId, p: PartitionNumber, sk: SubstateKey) -> bool {
+        tr.transient_substates@.contains_key(n) && tr.transient_substates@[n]@.contains((p, sk))
+    }
     /// THE OVERLAY: what a read of (n, p, substate key sk) must answer.  A tracked cell answers for itself; an
     /// untracked cell answers the database -- except for substates marked transient, which by definition
     /// ("never was and never will be persisted") are absent below the track.
-    pub open spec fn below<M: DatabaseKeyMapper>(tr: Set<(NodeId, PartitionNumber, SubstateKey)>, db: Db, n: NodeId, p: PartitionNumber, sk: SubstateKey) -> Option<V> {
-        if tr.contains((n, p, sk)) { None } else { db_get(db, M::part_key(n, p), M::sort_key(sk)) }
+    pub open spec fn below<M: DatabaseKeyMapper>(tr: TransientSubstates, db: Db, n: NodeId, p: PartitionNumber, sk: SubstateKey) -> Option<V> {
+        if is_tr(tr, n, p, sk) { None } else { db_get(db, M::part_key(n, p), M::sort_key(sk)) }
     }
-    pub open spec fn overlay<M: DatabaseKeyMapper>(a: Nodes, tr: Set<(NodeId, PartitionNumber, SubstateKey)>, db: Db, n: NodeId, p: PartitionNumber, sk: SubstateKey) -> Option<V> {
-        if has(a, n, p, M::sort_key(sk)) { cur(val(a, n, p, M::sort_key(sk))) } else { below::<M>(tr, db, n, p, sk) }
+    pub open spec fn overlay<M: DatabaseKeyMapper>(a: Nodes, tr: TransientSubstates, db: Db, n: NodeId, p: PartitionNumber, sk: SubstateKey) -> Option<V> {
+        if cell(a, n, p, M::sort_key(sk)) { cur(val(a, n, p, M::sort_key(sk))) } else { below::<M>(tr, db, n, p, sk) }
     }
 
     /// `b` is `a` with node n and partition (n, p) made to exist (a node that appears is NOT new, a partition
     /// that appears has range_read 0 and no substates) and nothing else touched
     pub open spec fn ensured(a: Nodes, b: Nodes, n: NodeId, p: PartitionNumber) -> bool {
-        &&& b.dom() == a.dom().insert(n)
+        &&& b.dom() =~= a.dom().insert(n)
         &&& forall|n1: NodeId| n1 != n && a.contains_key(n1) ==> #[trigger] b[n1] == a[n1]
         &&& b[n].is_new == node_is_new(a, n)
-        &&& b[n].tracked_partitions@.dom() == parts(a, n).dom().insert(p)
+        &&& b[n].tracked_partitions@.dom() =~= parts(a, n).dom().insert(p)
         &&& forall|p1: PartitionNumber| p1 != p && parts(a, n).contains_key(p1) ==> #[trigger] b[n].tracked_partitions@[p1] == parts(a, n)[p1]
         &&& b[n].tracked_partitions@[p].range_read == range_read(a, n, p)
     }
     /// `b` is `a` with exactly the cell (n, p, k) (re)bound to `sub` (node / partition created on the way if absent)
     pub open spec fn upd(a: Nodes, b: Nodes, n: NodeId, p: PartitionNumber, k: DbSortKey, sub: TrackedSubstate) -> bool {
         &&& ensured(a, b, n, p)
-        &&& b[n].tracked_partitions@[p].substates@ == subs(a, n, p).insert(k, sub)
+        &&& b[n].tracked_partitions@[p].substates@ =~= subs(a, n, p).insert(k, sub)
     }
     /// `b` is `a` with node / partition (n, p) made to exist, no cell touched
     pub open spec fn touched(a: Nodes, b: Nodes, n: NodeId, p: PartitionNumber) -> bool {
         &&& ensured(a, b, n, p)
-        &&& b[n].tracked_partitions@[p].substates@ == subs(a, n, p)
+        &&& b[n].tracked_partitions@[p].substates@ =~= subs(a, n, p)
     }
 
     /// cell-level reading of `upd`: exactly one cell changes, every other cell of the whole track is what it was
     pub proof fn lemma_upd_cells(a: Nodes, b: Nodes, n: NodeId, p: PartitionNumber, k: DbSortKey, sub: TrackedSubstate)
         requires upd(a, b, n, p, k, sub)
         ensures
-            has(b, n, p, k), subs(b, n, p)[k] == sub,
+            cell(b, n, p, k), subs(b, n, p)[k] == sub,
             forall|n1: NodeId, p1: PartitionNumber, k1: DbSortKey| !(n1 == n && p1 == p && k1 == k) ==>
-                (#[trigger] has(b, n1, p1, k1) == has(a, n1, p1, k1)) && (has(a, n1, p1, k1) ==> subs(b, n1, p1)[k1] == subs(a, n1, p1)[k1]),
+                (#[trigger] cell(b, n1, p1, k1) == cell(a, n1, p1, k1)) && (cell(a, n1, p1, k1) ==> subs(b, n1, p1)[k1] == subs(a, n1, p1)[k1]),
             forall|n1: NodeId| #[trigger] node_is_new(b, n1) == node_is_new(a, n1),
             forall|n1: NodeId, p1: PartitionNumber| #[trigger] range_read(b, n1, p1) == range_read(a, n1, p1),
     {
@@ -278,7 +281,7 @@ pub mod unit {
             }
         }
         assert forall|n1: NodeId, p1: PartitionNumber, k1: DbSortKey| !(n1 == n && p1 == p && k1 == k) implies
-                (#[trigger] has(b, n1, p1, k1) == has(a, n1, p1, k1)) && (has(a, n1, p1, k1) ==> subs(b, n1, p1)[k1] == subs(a, n1, p1)[k1]) by {
+                (#[trigger] cell(b, n1, p1, k1) == cell(a, n1, p1, k1)) && (cell(a, n1, p1, k1) ==> subs(b, n1, p1)[k1] == subs(a, n1, p1)[k1]) by {
             assert(range_read(b, n1, p1) == range_read(a, n1, p1));
         }
         assert forall|n1: NodeId| #[trigger] node_is_new(b, n1) == node_is_new(a, n1) by {
@@ -394,6 +397,12 @@ pub mod unit {
             ensures ret.substates@ == Map::<DbSortKey, TrackedSubstate>::empty(), ret.range_read == 0
         @*/
     }
+    impl TrackedPartition {
+        /*@fn radix-engine/src/track/state_updates.rs :: impl TrackedPartition :: fn new_with_substates
+        @sig
+            ensures ret.substates == substates, ret.range_read == 0
+        @*/
+    }
     impl Default for TrackedPartition {
         /*@fn radix-engine/src/track/state_updates.rs :: impl Default for TrackedPartition :: fn default
         @sig
@@ -404,6 +413,25 @@ pub mod unit {
         /*@fn radix-engine/src/track/state_updates.rs :: impl TrackedNode :: fn new
         @sig
             ensures ret.tracked_partitions@ == Map::<PartitionNumber, TrackedPartition>::empty(), ret.is_new == is_new
+        @*/
+    }
+
+    // radix-engine/src/kernel/call_frame.rs :: TransientSubstates (verbatim)
+    impl TransientSubstates {
+        /*@fn radix-engine/src/kernel/call_frame.rs :: impl TransientSubstates :: fn new
+        @sig
+            ensures forall|n: NodeId, p: PartitionNumber, sk: SubstateKey| !is_tr(ret, n, p, sk)
+        @*/
+
+        /*@fn radix-engine/src/kernel/call_frame.rs :: impl TransientSubstates :: fn mark_as_transient
+        @sig
+            ensures forall|n: NodeId, p: PartitionNumber, sk: SubstateKey| is_tr(*final(self), n, p, sk)
+                <==> is_tr(*old(self), n, p, sk) || (n == node_id && p == partition_num && sk == substate_key)
+        @*/
+
+        /*@fn radix-engine/src/kernel/call_frame.rs :: impl TransientSubstates :: fn is_transient
+        @sig
+            ensures ret == is_tr(*self, *node_id, partition_num, *substate_key)
         @*/
     }
 
@@ -418,6 +446,281 @@ pub mod unit {
         &&& b.transient_substates == a.transient_substates
     }
 
+    /// the cell (n, p, sort_key(sk)) as the first access through the track finds it: the cached cell, or else a
+    /// read-only image of what lies below the track
+    pub open spec fn first_access<'s, S: SubstateDatabase, M: DatabaseKeyMapper>(t: MappedTrack<'s, S, M>, n: NodeId, p: PartitionNumber, sk: SubstateKey) -> TrackedSubstate {
+        if cell(t.tracked_nodes@, n, p, M::sort_key(sk)) { subs(t.tracked_nodes@, n, p)[M::sort_key(sk)] }
+        else { TrackedSubstate { substate_key: sk, substate_value: loaded(below::<M>(t.transient_substates, t.substate_db.view(), n, p, sk)) } }
+    }
+
+    // ---- node creation --------------------------------------------------------------------------------
+    /// a partition handed to create_node: substate key -> value
+    pub type Src = Map<SubstateKey, V>;
+    /// ASSUMED of the key mapper on the keys of one created partition (injectivity of to_db_sort_key is C16; without
+    /// it the real code panics on `assert!(old_tracked.is_none())`)
+    pub open spec fn inj_on<M: DatabaseKeyMapper>(src: Src) -> bool {
+        forall|s1: SubstateKey, s2: SubstateKey| src.contains_key(s1) && src.contains_key(s2) && M::sort_key(s1) == M::sort_key(s2) ==> s1 == s2
+    }
+    pub open spec fn new_cell(sk: SubstateKey, v: V) -> TrackedSubstate {
+        TrackedSubstate { substate_key: sk, substate_value: TrackedSubstateValue::New(RuntimeSubstate { value: v }) }
+    }
+    /// `cells` is the tracked image of the created partition `src`: one `New` cell per substate, nothing else
+    pub open spec fn created_part<M: DatabaseKeyMapper>(src: Src, cells: Map<DbSortKey, TrackedSubstate>) -> bool {
+        &&& forall|sk: SubstateKey| src.contains_key(sk) ==> cells.contains_key(#[trigger] M::sort_key(sk)) && cells[M::sort_key(sk)] == new_cell(sk, src[sk])
+        &&& forall|k: DbSortKey| #[trigger] cells.contains_key(k) ==> exists|sk: SubstateKey| src.contains_key(sk) && #[trigger] M::sort_key(sk) == k
+    }
+    pub proof fn lemma_created_node<M: DatabaseKeyMapper>(s: Seq<(PartitionNumber, BTreeMap<SubstateKey, V>)>, n: int, src: Map<PartitionNumber, BTreeMap<SubstateKey, V>>, tp: Map<PartitionNumber, TrackedPartition>)
+        requires
+            enumerates(s, src), 0 <= n <= s.len(),
+            forall|p: PartitionNumber| tp.contains_key(p) <==> seen(s, n, p),
+            forall|j: int| 0 <= j < n ==> tp[(#[trigger] s[j]).0].range_read == 0 && created_part::<M>(s[j].1@, tp[s[j].0].substates@),
+        ensures n == s.len() ==> created_node::<M>(src, tp)
+    {
+        if n != s.len() { return; }
+        assert forall|p: PartitionNumber| tp.contains_key(p) <==> src.contains_key(p) by { lemma_seen_all(s, src, p); }
+        assert forall|p: PartitionNumber| src.contains_key(p) implies
+            (#[trigger] tp[p]).range_read == 0 && created_part::<M>(src[p]@, tp[p].substates@) by {
+            assert(has_key(s, p));
+            let j = choose|j: int| 0 <= j < s.len() && (#[trigger] s[j]).0 == p;
+            assert(src[s[j].0] == s[j].1);
+        }
+    }
+    /// `tp` is the tracked image of the created node `src`
+    pub open spec fn created_node<M: DatabaseKeyMapper>(src: Map<PartitionNumber, BTreeMap<SubstateKey, V>>, tp: Map<PartitionNumber, TrackedPartition>) -> bool {
+        &&& tp.dom() =~= src.dom()
+        &&& forall|p: PartitionNumber| src.contains_key(p) ==> (#[trigger] tp[p]).range_read == 0 && created_part::<M>(src[p]@, tp[p].substates@)
+    }
+    /// typed views (the element types of the two local maps in create_node are only fixed by later uses)
+    pub open spec fn tpv(m: IndexMap<PartitionNumber, TrackedPartition>) -> Map<PartitionNumber, TrackedPartition> { m@ }
+    pub open spec fn psv(m: BTreeMap<DbSortKey, TrackedSubstate>) -> Map<DbSortKey, TrackedSubstate> { m@ }
+    pub open spec fn seenk<M: DatabaseKeyMapper>(s: Seq<(SubstateKey, V)>, i: int, k: DbSortKey) -> bool {
+        exists|j: int| 0 <= j < i && M::sort_key((#[trigger] s[j]).0) == k
+    }
+    pub proof fn lemma_seenk_step<M: DatabaseKeyMapper>(s: Seq<(SubstateKey, V)>, i: int, k: DbSortKey)
+        requires 0 <= i < s.len()
+        ensures seenk::<M>(s, i + 1, k) <==> (seenk::<M>(s, i, k) || M::sort_key(s[i].0) == k)
+    {
+        if seenk::<M>(s, i + 1, k) {
+            let j = choose|j: int| 0 <= j < i + 1 && M::sort_key((#[trigger] s[j]).0) == k;
+            if j < i { assert(seenk::<M>(s, i, k)); }
+        }
+        if seenk::<M>(s, i, k) {
+            let j = choose|j: int| 0 <= j < i && M::sort_key((#[trigger] s[j]).0) == k;
+            assert(0 <= j < i + 1 && M::sort_key(s[j].0) == k);
+        }
+        if M::sort_key(s[i].0) == k { assert(0 <= i < i + 1 && M::sort_key(s[i].0) == k); }
+    }
+    /// a fully consumed partition has been turned into its tracked image
+    pub proof fn lemma_created_part<M: DatabaseKeyMapper>(s: Seq<(SubstateKey, V)>, n: int, src: Src, cells: Map<DbSortKey, TrackedSubstate>)
+        requires
+            enumerates(s, src), 0 <= n <= s.len(),
+            forall|k: DbSortKey| cells.contains_key(k) <==> seenk::<M>(s, n, k),
+            forall|j: int| 0 <= j < n ==> cells[M::sort_key((#[trigger] s[j]).0)] == new_cell(s[j].0, s[j].1),
+        ensures n == s.len() ==> created_part::<M>(src, cells)
+    {
+        if n != s.len() { return; }
+        assert forall|sk: SubstateKey| src.contains_key(sk) implies cells.contains_key(#[trigger] M::sort_key(sk)) && cells[M::sort_key(sk)] == new_cell(sk, src[sk]) by {
+            assert(has_key(s, sk));
+            let i = choose|i: int| 0 <= i < s.len() && (#[trigger] s[i]).0 == sk;
+            assert(0 <= i < s.len() && M::sort_key(s[i].0) == M::sort_key(sk));
+            assert(seenk::<M>(s, s.len() as int, M::sort_key(sk)));
+            assert(src[s[i].0] == s[i].1);
+        }
+        assert forall|k: DbSortKey| #[trigger] cells.contains_key(k) implies exists|sk: SubstateKey| src.contains_key(sk) && #[trigger] M::sort_key(sk) == k by {
+            assert(seenk::<M>(s, s.len() as int, k));
+            let j = choose|j: int| 0 <= j < s.len() && M::sort_key((#[trigger] s[j]).0) == k;
+            assert(src.contains_key(s[j].0) && M::sort_key(s[j].0) == k);
+        }
+    }
+
+    // ---- finalization: transient substates are dropped ----------------------------------------------------
+    pub type Tr3 = (NodeId, PartitionNumber, SubstateKey);
+    /// some substate key in `done` for (n, p) maps to sort key k
+    pub open spec fn done_key<M: DatabaseKeyMapper>(done: Set<Tr3>, n: NodeId, p: PartitionNumber, k: DbSortKey) -> bool {
+        exists|sk: SubstateKey| done.contains((n, p, sk)) && #[trigger] M::sort_key(sk) == k
+    }
+    pub open spec fn tr_key<M: DatabaseKeyMapper>(tr: TransientSubstates, n: NodeId, p: PartitionNumber, k: DbSortKey) -> bool {
+        exists|sk: SubstateKey| is_tr(tr, n, p, sk) && #[trigger] M::sort_key(sk) == k
+    }
+    /// `b` is `a` with exactly the cells named by `done` removed: same nodes, same partitions, same flags
+    pub open spec fn dropped<M: DatabaseKeyMapper>(a: Nodes, b: Nodes, done: Set<Tr3>) -> bool {
+        &&& b.dom() =~= a.dom()
+        &&& forall|n: NodeId| a.contains_key(n) ==> (#[trigger] b[n]).is_new == a[n].is_new && b[n].tracked_partitions@.dom() =~= a[n].tracked_partitions@.dom()
+        &&& forall|n: NodeId, p: PartitionNumber| #[trigger] range_read(b, n, p) == range_read(a, n, p)
+        &&& forall|n: NodeId, p: PartitionNumber, k: DbSortKey| #[trigger] cell(b, n, p, k) <==> cell(a, n, p, k) && !done_key::<M>(done, n, p, k)
+        &&& forall|n: NodeId, p: PartitionNumber, k: DbSortKey| #[trigger] cell(b, n, p, k) ==> subs(b, n, p)[k] == subs(a, n, p)[k]
+    }
+    /// none of the tracked substates named by `done` currently holds a value that owns nodes
+    pub open spec fn none_owns<M: DatabaseKeyMapper>(a: Nodes, done: Set<Tr3>) -> bool {
+        forall|n: NodeId, p: PartitionNumber, sk: SubstateKey| #[trigger] done.contains((n, p, sk)) && cell(a, n, p, M::sort_key(sk))
+            ==> !(cur(val(a, n, p, M::sort_key(sk))) matches Some(v) && v.owns())
+    }
+    /// processing one transient entry (n, p, sk) that is NOT tracked (node, partition or cell absent): nothing changes
+    pub proof fn lemma_drop_absent<M: DatabaseKeyMapper>(a: Nodes, b: Nodes, done: Set<Tr3>, n: NodeId, p: PartitionNumber, sk: SubstateKey)
+        requires dropped::<M>(a, b, done), none_owns::<M>(a, done), !cell(b, n, p, M::sort_key(sk))
+        ensures dropped::<M>(a, b, done.insert((n, p, sk))), none_owns::<M>(a, done.insert((n, p, sk)))
+    {
+        let done2 = done.insert((n, p, sk));
+        assert forall|n1: NodeId, p1: PartitionNumber, k1: DbSortKey| #[trigger] cell(b, n1, p1, k1) <==> cell(a, n1, p1, k1) && !done_key::<M>(done2, n1, p1, k1) by {
+            if done_key::<M>(done2, n1, p1, k1) && !done_key::<M>(done, n1, p1, k1) {
+                let s = choose|s: SubstateKey| done2.contains((n1, p1, s)) && #[trigger] M::sort_key(s) == k1;
+                if !(n1 == n && p1 == p && s == sk) { assert(done.contains((n1, p1, s))); }
+            }
+            if done_key::<M>(done, n1, p1, k1) {
+                let s = choose|s: SubstateKey| done.contains((n1, p1, s)) && #[trigger] M::sort_key(s) == k1;
+                assert(done2.contains((n1, p1, s)));
+            }
+            if n1 == n && p1 == p && k1 == M::sort_key(sk) {
+                if cell(a, n1, p1, k1) { assert(done_key::<M>(done, n1, p1, k1)); }
+            }
+        }
+        assert forall|n1: NodeId, p1: PartitionNumber, s1: SubstateKey| #[trigger] done2.contains((n1, p1, s1)) && cell(a, n1, p1, M::sort_key(s1))
+            implies !(cur(val(a, n1, p1, M::sort_key(s1))) matches Some(v) && v.owns()) by {
+            if n1 == n && p1 == p && s1 == sk {
+                // the cell is tracked in `a` but no longer in `b`: an earlier entry with the same sort key removed it
+                assert(done_key::<M>(done, n, p, M::sort_key(sk)));
+                let s = choose|s: SubstateKey| done.contains((n, p, s)) && #[trigger] M::sort_key(s) == M::sort_key(sk);
+                assert(done.contains((n, p, s)));
+            } else {
+                assert(done.contains((n1, p1, s1)));
+            }
+        }
+    }
+    /// processing one transient entry whose partition is tracked: exactly its cell goes (if there is one)
+    pub proof fn lemma_drop_step<M: DatabaseKeyMapper>(a: Nodes, b: Nodes, b2: Nodes, done: Set<Tr3>, n: NodeId, p: PartitionNumber, sk: SubstateKey)
+        requires
+            dropped::<M>(a, b, done), none_owns::<M>(a, done),
+            b.contains_key(n), b[n].tracked_partitions@.contains_key(p),
+            cell(b, n, p, M::sort_key(sk)) ==> !(cur(val(b, n, p, M::sort_key(sk))) matches Some(v) && v.owns()),
+            b2.dom() =~= b.dom(),
+            forall|n1: NodeId| n1 != n && b.contains_key(n1) ==> #[trigger] b2[n1] == b[n1],
+            b2[n].is_new == b[n].is_new,
+            b2[n].tracked_partitions@.dom() =~= b[n].tracked_partitions@.dom(),
+            forall|p1: PartitionNumber| p1 != p && b[n].tracked_partitions@.contains_key(p1) ==> #[trigger] b2[n].tracked_partitions@[p1] == b[n].tracked_partitions@[p1],
+            b2[n].tracked_partitions@[p].range_read == b[n].tracked_partitions@[p].range_read,
+            b2[n].tracked_partitions@[p].substates@ =~= b[n].tracked_partitions@[p].substates@.remove(M::sort_key(sk)),
+        ensures dropped::<M>(a, b2, done.insert((n, p, sk))), none_owns::<M>(a, done.insert((n, p, sk)))
+    {
+        let done2 = done.insert((n, p, sk));
+        let k = M::sort_key(sk);
+        assert forall|n1: NodeId, p1: PartitionNumber| subs(b2, n1, p1) == (if n1 == n && p1 == p { subs(b, n, p).remove(k) } else { subs(b, n1, p1) })
+            && #[trigger] range_read(b2, n1, p1) == range_read(b, n1, p1) by {
+            if n1 == n {
+                if p1 != p {
+                    assert(b2[n].tracked_partitions@.contains_key(p1) == b[n].tracked_partitions@.contains_key(p1));
+                    if b[n].tracked_partitions@.contains_key(p1) { assert(b2[n].tracked_partitions@[p1] == b[n].tracked_partitions@[p1]); }
+                }
+            } else {
+                assert(b2.contains_key(n1) == b.contains_key(n1));
+                if b.contains_key(n1) { assert(b2[n1] == b[n1]); }
+            }
+        }
+        assert forall|n1: NodeId, p1: PartitionNumber| #[trigger] range_read(b2, n1, p1) == range_read(a, n1, p1) by {
+            assert(range_read(b2, n1, p1) == range_read(b, n1, p1));
+            assert(range_read(b, n1, p1) == range_read(a, n1, p1));
+        }
+        assert forall|n1: NodeId| a.contains_key(n1) implies (#[trigger] b2[n1]).is_new == a[n1].is_new && b2[n1].tracked_partitions@.dom() =~= a[n1].tracked_partitions@.dom() by {
+            assert(b[n1].is_new == a[n1].is_new);
+            if n1 != n { assert(b2[n1] == b[n1]); }
+        }
+        assert forall|n1: NodeId, p1: PartitionNumber, k1: DbSortKey| #[trigger] cell(b2, n1, p1, k1) <==> cell(a, n1, p1, k1) && !done_key::<M>(done2, n1, p1, k1) by {
+            assert(range_read(b2, n1, p1) == range_read(b, n1, p1));
+            assert(cell(b, n1, p1, k1) <==> cell(a, n1, p1, k1) && !done_key::<M>(done, n1, p1, k1));
+            if done_key::<M>(done2, n1, p1, k1) && !done_key::<M>(done, n1, p1, k1) {
+                let s = choose|s: SubstateKey| done2.contains((n1, p1, s)) && #[trigger] M::sort_key(s) == k1;
+                if !(n1 == n && p1 == p && s == sk) { assert(done.contains((n1, p1, s))); }
+            }
+            if done_key::<M>(done, n1, p1, k1) {
+                let s = choose|s: SubstateKey| done.contains((n1, p1, s)) && #[trigger] M::sort_key(s) == k1;
+                assert(done2.contains((n1, p1, s)));
+            }
+            if n1 == n && p1 == p && k1 == k { assert(done2.contains((n, p, sk))); }
+        }
+        assert forall|n1: NodeId, p1: PartitionNumber, k1: DbSortKey| #[trigger] cell(b2, n1, p1, k1) implies subs(b2, n1, p1)[k1] == subs(a, n1, p1)[k1] by {
+            assert(range_read(b2, n1, p1) == range_read(b, n1, p1));
+            assert(cell(b, n1, p1, k1));
+        }
+        assert forall|n1: NodeId, p1: PartitionNumber, s1: SubstateKey| #[trigger] done2.contains((n1, p1, s1)) && cell(a, n1, p1, M::sort_key(s1))
+            implies !(cur(val(a, n1, p1, M::sort_key(s1))) matches Some(v) && v.owns()) by {
+            if n1 == n && p1 == p && s1 == sk {
+                if cell(b, n, p, k) {
+                    assert(subs(b, n, p)[k] == subs(a, n, p)[k]);
+                } else {
+                    assert(done_key::<M>(done, n, p, k));
+                    let s = choose|s: SubstateKey| done.contains((n, p, s)) && #[trigger] M::sort_key(s) == k;
+                    assert(done.contains((n, p, s)));
+                }
+            } else {
+                assert(done.contains((n1, p1, s1)));
+            }
+        }
+    }
+    pub open spec fn seen_elem<T>(s: Seq<T>, i: int, t: T) -> bool { exists|j: int| 0 <= j < i && #[trigger] s[j] == t }
+    pub proof fn lemma_seen_elem_step<T>(s: Seq<T>, i: int, t: T)
+        requires 0 <= i < s.len()
+        ensures seen_elem(s, i + 1, t) <==> (seen_elem(s, i, t) || s[i] == t)
+    {
+        if seen_elem(s, i + 1, t) {
+            let j = choose|j: int| 0 <= j < i + 1 && #[trigger] s[j] == t;
+            if j < i { assert(seen_elem(s, i, t)); }
+        }
+        if seen_elem(s, i, t) {
+            let j = choose|j: int| 0 <= j < i && #[trigger] s[j] == t;
+            assert(0 <= j < i + 1 && s[j] == t);
+        }
+        if s[i] == t { assert(0 <= i < i + 1 && s[i] == t); }
+    }
+    /// ... and when every transient entry has been processed, `done` is the transient set
+    pub open spec fn finalized<M: DatabaseKeyMapper>(a: Nodes, tr: TransientSubstates, b: Nodes) -> bool {
+        &&& b.dom() =~= a.dom()
+        &&& forall|n: NodeId| a.contains_key(n) ==> (#[trigger] b[n]).is_new == a[n].is_new && b[n].tracked_partitions@.dom() =~= a[n].tracked_partitions@.dom()
+        &&& forall|n: NodeId, p: PartitionNumber| #[trigger] range_read(b, n, p) == range_read(a, n, p)
+        // exactly the tracked substates that are marked transient are gone; everything else is what it was
+        &&& forall|n: NodeId, p: PartitionNumber, k: DbSortKey| #[trigger] cell(b, n, p, k) <==> cell(a, n, p, k) && !tr_key::<M>(tr, n, p, k)
+        &&& forall|n: NodeId, p: PartitionNumber, k: DbSortKey| #[trigger] cell(b, n, p, k) ==> subs(b, n, p)[k] == subs(a, n, p)[k]
+    }
+    pub proof fn lemma_finalized<M: DatabaseKeyMapper>(a: Nodes, b: Nodes, tr: TransientSubstates, done: Set<Tr3>)
+        requires dropped::<M>(a, b, done),
+            forall|n: NodeId, p: PartitionNumber, sk: SubstateKey| #[trigger] done.contains((n, p, sk)) <==> is_tr(tr, n, p, sk),
+        ensures finalized::<M>(a, tr, b)
+    {
+        assert forall|n: NodeId, p: PartitionNumber, k: DbSortKey| done_key::<M>(done, n, p, k) <==> tr_key::<M>(tr, n, p, k) by {
+            if done_key::<M>(done, n, p, k) {
+                let s = choose|s: SubstateKey| done.contains((n, p, s)) && #[trigger] M::sort_key(s) == k;
+                assert(is_tr(tr, n, p, s));
+            }
+            if tr_key::<M>(tr, n, p, k) {
+                let s = choose|s: SubstateKey| is_tr(tr, n, p, s) && #[trigger] M::sort_key(s) == k;
+                assert(done.contains((n, p, s)));
+            }
+        }
+        assert forall|n: NodeId, p: PartitionNumber, k: DbSortKey| #[trigger] cell(b, n, p, k) <==> cell(a, n, p, k) && !tr_key::<M>(tr, n, p, k) by {
+            assert(done_key::<M>(done, n, p, k) <==> tr_key::<M>(tr, n, p, k));
+        }
+    }
+
+    /// classification reported to the kernel: created by this transaction (or created and removed again) / carries a
+    /// write / only read
+    pub open spec fn info_of(t: TrackedSubstateValue) -> TrackedSubstateInfo {
+        if fresh(t) || t is Garbage { TrackedSubstateInfo::New } else if written(t) { TrackedSubstateInfo::Updated } else { TrackedSubstateInfo::Unmodified }
+    }
+
+    /// `b` is the track `t` after the removal of (n, p, sk): exactly that cell changed; it now reads as absent, keeps
+    /// its substate key and what is known about the database below it, and owes a Delete exactly when the database
+    /// may hold a value (see TrackedSubstateValue::take)
+    pub open spec fn removed<'s, S: SubstateDatabase, M: DatabaseKeyMapper>(t: MappedTrack<'s, S, M>, b: Nodes, n: NodeId, p: PartitionNumber, sk: SubstateKey) -> bool {
+        let k = M::sort_key(sk);
+        let before = first_access::<S, M>(t, n, p, sk);
+        let now = subs(b, n, p)[k];
+        &&& upd(t.tracked_nodes@, b, n, p, k, now)
+        &&& now.substate_key == before.substate_key
+        &&& cur(now.substate_value) is None
+        &&& base(now.substate_value) == base(before.substate_value)
+        &&& !fresh(now.substate_value)
+        &&& written(now.substate_value) == (if fresh(before.substate_value) { false } else {
+                match base(before.substate_value) { Some(None) => false, Some(Some(_)) => true, None => written(before.substate_value) } })
+    }
+
     impl<'s, S: SubstateDatabase, M: DatabaseKeyMapper> MappedTrack<'s, S, M> {
         /*@fn radix-engine/src/track/track.rs :: impl<'s, S: SubstateDatabase, M: DatabaseKeyMapper> MappedTrack<'s, S, M> :: fn get_substate_from_db
         @sig
@@ -425,6 +728,7 @@ pub mod unit {
                 db_wf(substate_db.view()),
                 forall|a: IOAccess| (*old(on_io_access)).requires((a,)),
             ensures
+                *final(on_io_access) == *old(on_io_access),
                 match ret {
                     // the database is consulted at exactly this key, and the answer is passed on unchanged
                     Ok(v) => v == db_get(substate_db.view(), *partition_key, *sort_key),
@@ -437,42 +741,430 @@ pub mod unit {
         /*@fn radix-engine/src/track/track.rs :: impl<'s, S: SubstateDatabase, M: DatabaseKeyMapper> MappedTrack<'s, S, M> :: fn get_tracked_substate
         @sig
             requires
-                db_wf(old(self).substate_db.view()),
-                // a tracked cell is served from the cache: NO IO access is made for it (so the callback may then be uncallable)
-                has(old(self).tracked_nodes@, *node_id, partition_number, M::sort_key(substate_key))
-                    || forall|a: IOAccess| (*old(on_io_access)).requires((a,)),
+                // a tracked cell is served from the cache: NO database read and NO IO access is made for it (so the
+                // callback may then be uncallable)
+                cell(old(self).tracked_nodes@, *node_id, partition_number, M::sort_key(substate_key))
+                    || (db_wf(old(self).substate_db.view()) && forall|a: IOAccess| (*old(on_io_access)).requires((a,))),
             ensures
+                *final(on_io_access) == *old(on_io_access),
                 rest_same(*old(self), *final(self)),
-                has(old(self).tracked_nodes@, *node_id, partition_number, M::sort_key(substate_key)) ==> ret is Ok,
-                match ret {
-                    Ok(r) => {
-                        let k = M::sort_key(substate_key);
-                        let a = old(self).tracked_nodes@;
-                        if has(a, *node_id, partition_number, k) {
-                            // cached: the reference is the cell itself
-                            &&& *r == val(a, *node_id, partition_number, k)
-                            &&& upd(a, final(self).tracked_nodes@, *node_id, partition_number, k,
-                                    TrackedSubstate { substate_key: subs(a, *node_id, partition_number)[k].substate_key, substate_value: *final(r) })
-                        } else {
-                            // first access: the cell is created as a read-only image of what lies below the track
-                            &&& *r == loaded(below::<M>(old(self).transient_substates@, old(self).substate_db.view(), *node_id, partition_number, substate_key))
-                            &&& upd(a, final(self).tracked_nodes@, *node_id, partition_number, k,
-                                    TrackedSubstate { substate_key: substate_key, substate_value: *final(r) })
-                        }
-                    },
-                    Err(e) => {
-                        let k = M::sort_key(substate_key);
-                        let a = old(self).tracked_nodes@;
-                        &&& !has(a, *node_id, partition_number, k)
-                        // nothing but (at most) the read-only image of the cell has been added
-                        &&& (touched(a, final(self).tracked_nodes@, *node_id, partition_number)
-                             || upd(a, final(self).tracked_nodes@, *node_id, partition_number, k, TrackedSubstate { substate_key: substate_key,
-                                    substate_value: loaded(below::<M>(old(self).transient_substates@, old(self).substate_db.view(), *node_id, partition_number, substate_key)) }))
-                        &&& exists|a: IOAccess| (*old(on_io_access)).ensures((a,), Err::<(), E>(e))
-                    },
-                }
+                cell(old(self).tracked_nodes@, *node_id, partition_number, M::sort_key(substate_key)) ==> ret is Ok,
+                // Ok: the reference IS the cell (n, p, k): it starts as the cached state, or on first access as a
+                // read-only image of what lies below the track, and what is finally stored behind it is the cell afterwards
+                ret matches Ok(r) ==> *r == first_access::<S, M>(*old(self), *node_id, partition_number, substate_key).substate_value,
+                ret matches Ok(r) ==> upd(old(self).tracked_nodes@, final(self).tracked_nodes@, *node_id, partition_number, M::sort_key(substate_key),
+                    TrackedSubstate { substate_key: first_access::<S, M>(*old(self), *node_id, partition_number, substate_key).substate_key, substate_value: *final(r) }),
+                // Err: only on first access; nothing but (at most) the read-only image of the cell has been added;
+                // the error is the callback's
+                ret matches Err(e) ==> !cell(old(self).tracked_nodes@, *node_id, partition_number, M::sort_key(substate_key)),
+                ret matches Err(e) ==> touched(old(self).tracked_nodes@, final(self).tracked_nodes@, *node_id, partition_number)
+                    || upd(old(self).tracked_nodes@, final(self).tracked_nodes@, *node_id, partition_number, M::sort_key(substate_key),
+                           first_access::<S, M>(*old(self), *node_id, partition_number, substate_key)),
+                ret matches Err(e) ==> exists|a: IOAccess| (*old(on_io_access)).ensures((a,), Err::<(), E>(e)),
         @subst <<let tracked =>> => <<let r#tracked =>> x3 why: `tracked` is a reserved word of Verus in `let` position; `r#tracked` is the SAME Rust identifier written as a raw identifier, the program is unchanged
         @*/
+
+        /*@fn radix-engine/src/track/track.rs :: impl<'s, S: SubstateDatabase, M: DatabaseKeyMapper> MappedTrack<'s, S, M> :: fn new
+        @sig
+            ensures
+                ret.substate_db == substate_db,
+                ret.tracked_nodes@ == Map::<NodeId, TrackedNode>::empty(),
+                ret.force_write_tracked_nodes@ == Map::<NodeId, TrackedNode>::empty(),
+                ret.deleted_partitions@ == Set::<(NodeId, PartitionNumber)>::empty(),
+                forall|n: NodeId, p: PartitionNumber, sk: SubstateKey| !is_tr(ret.transient_substates, n, p, sk),
+        @*/
+
+        // ---- CommitableSubstateStore for MappedTrack (trait methods placed in the inherent impl: Verus does not
+        // allow `requires` on trait-impl methods; bodies verbatim) ------------------------------------------------
+        /*@fn radix-engine/src/track/track.rs :: impl<'s, S: SubstateDatabase, M: DatabaseKeyMapper> CommitableSubstateStore for MappedTrack<'s, S, M> :: fn mark_as_transient
+        @sig
+            ensures
+                forall|n: NodeId, p: PartitionNumber, sk: SubstateKey| is_tr(final(self).transient_substates, n, p, sk)
+                    <==> is_tr(old(self).transient_substates, n, p, sk) || (n == node_id && p == partition_num && sk == substate_key),
+                final(self).substate_db == old(self).substate_db, final(self).tracked_nodes == old(self).tracked_nodes,
+                final(self).force_write_tracked_nodes == old(self).force_write_tracked_nodes, final(self).deleted_partitions == old(self).deleted_partitions,
+        @*/
+
+        /*@fn radix-engine/src/track/track.rs :: impl<'s, S: SubstateDatabase, M: DatabaseKeyMapper> CommitableSubstateStore for MappedTrack<'s, S, M> :: fn delete_partition
+        @sig
+            ensures
+                // only the set of partitions to delete grows; reads through the track are not affected (the deletion is
+                // applied to the DATABASE when the state updates are produced, before the substate updates)
+                final(self).deleted_partitions@ == old(self).deleted_partitions@.insert((*node_id, partition_num)),
+                final(self).substate_db == old(self).substate_db, final(self).tracked_nodes == old(self).tracked_nodes,
+                final(self).force_write_tracked_nodes == old(self).force_write_tracked_nodes, final(self).transient_substates == old(self).transient_substates,
+        @*/
+
+        /*@fn radix-engine/src/track/track.rs :: impl<'s, S: SubstateDatabase, M: DatabaseKeyMapper> CommitableSubstateStore for MappedTrack<'s, S, M> :: fn get_substate
+        @sig
+            requires
+                cell(old(self).tracked_nodes@, *node_id, partition_num, M::sort_key(*substate_key))
+                    || (db_wf(old(self).substate_db.view()) && forall|a: IOAccess| (*old(on_io_access)).requires((a,))),
+            ensures
+                *final(on_io_access) == *old(on_io_access),
+                rest_same(*old(self), *final(self)),
+                cell(old(self).tracked_nodes@, *node_id, partition_num, M::sort_key(*substate_key)) ==> ret is Ok,
+                // C12: the read answers the overlay
+                ret matches Ok(v) ==> (match v { Some(x) => Some(*x), None => None::<V> })
+                    == overlay::<M>(old(self).tracked_nodes@, old(self).transient_substates, old(self).substate_db.view(), *node_id, partition_num, *substate_key),
+                // ... and leaves the cell cached (as it was, or as a read-only image of what lies below), nothing else touched
+                ret matches Ok(v) ==> upd(old(self).tracked_nodes@, final(self).tracked_nodes@, *node_id, partition_num, M::sort_key(*substate_key),
+                    first_access::<S, M>(*old(self), *node_id, partition_num, *substate_key)),
+                ret matches Err(e) ==> !cell(old(self).tracked_nodes@, *node_id, partition_num, M::sort_key(*substate_key)),
+                ret matches Err(e) ==> touched(old(self).tracked_nodes@, final(self).tracked_nodes@, *node_id, partition_num)
+                    || upd(old(self).tracked_nodes@, final(self).tracked_nodes@, *node_id, partition_num, M::sort_key(*substate_key),
+                           first_access::<S, M>(*old(self), *node_id, partition_num, *substate_key)),
+                ret matches Err(e) ==> exists|a: IOAccess| (*old(on_io_access)).ensures((a,), Err::<(), E>(e)),
+        @subst <<let tracked =>> => <<let r#tracked =>> why: `tracked` is a reserved word of Verus in `let` position; `r#tracked` is the SAME Rust identifier written as a raw identifier, the program is unchanged
+        @closure 1 := |v: &mut RuntimeSubstate| -> (r: &IndexedScryptoValue) ensures *r == old(v).value, *final(v) == *old(v)
+        @*/
+
+        /*@fn radix-engine/src/track/track.rs :: impl<'s, S: SubstateDatabase, M: DatabaseKeyMapper> CommitableSubstateStore for MappedTrack<'s, S, M> :: fn set_substate
+        @sig
+            requires
+                forall|a: IOAccess| (*old(on_io_access)).requires((a,)),
+            ensures
+                *final(on_io_access) == *old(on_io_access),
+                rest_same(*old(self), *final(self)),
+                // C12: whatever the callback answers, exactly the cell (n, p, k) has been written (no database access:
+                // an untracked cell becomes a blind write) and every other cell is what it was
+                upd(old(self).tracked_nodes@, final(self).tracked_nodes@, node_id, partition_number, M::sort_key(substate_key),
+                    subs(final(self).tracked_nodes@, node_id, partition_number)[M::sort_key(substate_key)]),
+                ({
+                    let a = old(self).tracked_nodes@;
+                    let k = M::sort_key(substate_key);
+                    let now = subs(final(self).tracked_nodes@, node_id, partition_number)[k];
+                    &&& cur(now.substate_value) == Some(substate_value)
+                    &&& written(now.substate_value)
+                    &&& if cell(a, node_id, partition_number, k) {
+                            &&& now.substate_key == subs(a, node_id, partition_number)[k].substate_key
+                            &&& base(now.substate_value) == base(val(a, node_id, partition_number, k))
+                            &&& fresh(now.substate_value) == fresh(val(a, node_id, partition_number, k))
+                        } else {
+                            &&& now.substate_key == substate_key
+                            &&& now.substate_value == TrackedSubstateValue::WriteOnly(Write::Update(RuntimeSubstate { value: substate_value }))
+                        }
+                }),
+                ret matches Err(e) ==> exists|a: IOAccess| (*old(on_io_access)).ensures((a,), Err::<(), E>(e)),
+        @subst <<let tracked =>> => <<let r#tracked =>> x2 why: `tracked` is a reserved word of Verus in `let` position; `r#tracked` is the SAME Rust identifier written as a raw identifier, the program is unchanged
+        @*/
+
+        /*@fn radix-engine/src/track/track.rs :: impl<'s, S: SubstateDatabase, M: DatabaseKeyMapper> CommitableSubstateStore for MappedTrack<'s, S, M> :: fn remove_substate
+        @sig
+            requires
+                db_wf(old(self).substate_db.view()),
+                forall|a: IOAccess| (*old(on_io_access)).requires((a,)),
+            ensures
+                *final(on_io_access) == *old(on_io_access),
+                rest_same(*old(self), *final(self)),
+                // C12: the removal returns what a read would have returned ...
+                ret matches Ok(taken) ==> taken == overlay::<M>(old(self).tracked_nodes@, old(self).transient_substates, old(self).substate_db.view(), *node_id, partition_number, *substate_key),
+                // ... and afterwards the cell reads as absent; what is known about the database below is kept
+                ret matches Ok(taken) ==> removed::<S, M>(*old(self), final(self).tracked_nodes@, *node_id, partition_number, *substate_key),
+                ret matches Err(e) ==> removed::<S, M>(*old(self), final(self).tracked_nodes@, *node_id, partition_number, *substate_key)
+                    || (!cell(old(self).tracked_nodes@, *node_id, partition_number, M::sort_key(*substate_key))
+                        && (touched(old(self).tracked_nodes@, final(self).tracked_nodes@, *node_id, partition_number)
+                            || upd(old(self).tracked_nodes@, final(self).tracked_nodes@, *node_id, partition_number, M::sort_key(*substate_key),
+                                first_access::<S, M>(*old(self), *node_id, partition_number, *substate_key)))),
+                ret matches Err(e) ==> exists|a: IOAccess| (*old(on_io_access)).ensures((a,), Err::<(), E>(e)),
+        @subst <<let tracked =>> => <<let r#tracked =>> why: `tracked` is a reserved word of Verus in `let` position; `r#tracked` is the SAME Rust identifier written as a raw identifier, the program is unchanged
+        @*/
+
+        /*@fn radix-engine/src/track/track.rs :: impl<'s, S: SubstateDatabase, M: DatabaseKeyMapper> CommitableSubstateStore for MappedTrack<'s, S, M> :: fn force_write
+        @sig
+            requires
+                // ASSUMED about the caller (kernel: force_write is issued when a lock on a substate that was read through
+                // the track is closed): the substate is tracked.  Otherwise the real code panics ("Should not need to go
+                // into store on close substate") -- with this precondition the `expect` is proved unreachable.
+                cell(old(self).tracked_nodes@, *node_id, *partition_num, M::sort_key(*substate_key)),
+            ensures
+                final(self).substate_db == old(self).substate_db, final(self).deleted_partitions == old(self).deleted_partitions,
+                final(self).transient_substates == old(self).transient_substates,
+                // no cell of the track changes ...
+                upd(old(self).tracked_nodes@, final(self).tracked_nodes@, *node_id, *partition_num, M::sort_key(*substate_key),
+                    subs(old(self).tracked_nodes@, *node_id, *partition_num)[M::sort_key(*substate_key)]),
+                // ... and the force-write log records the current state of exactly this cell
+                upd(old(self).force_write_tracked_nodes@, final(self).force_write_tracked_nodes@, *node_id, *partition_num, M::sort_key(*substate_key),
+                    TrackedSubstate { substate_key: *substate_key, substate_value: val(old(self).tracked_nodes@, *node_id, *partition_num, M::sort_key(*substate_key)) }),
+        @subst <<let tracked =>> => <<let r#tracked =>> why: `tracked` is a reserved word of Verus in `let` position; `r#tracked` is the SAME Rust identifier written as a raw identifier, the program is unchanged
+        @subst <<|_| -> Result<(), ()>>> => <<|_a: IOAccess| -> (r: Result<(), ()>) requires false>> why: Verus needs a typed closure parameter and a named result to attach a contract (the extractor's @closure does not recognise a closure with an explicit return type); the body `{ Err(()) }` is untouched; `requires false` is a proof annotation: the callback is proved never to be called
+        @*/
+
+        /*@fn radix-engine/src/track/track.rs :: impl<'s, S: SubstateDatabase, M: DatabaseKeyMapper> CommitableSubstateStore for MappedTrack<'s, S, M> :: fn get_tracked_substate_info
+        @sig
+            ensures
+                *final(self) == *old(self),
+                ret == (if cell(old(self).tracked_nodes@, *node_id, partition_num, M::sort_key(*substate_key)) {
+                        info_of(val(old(self).tracked_nodes@, *node_id, partition_num, M::sort_key(*substate_key)))
+                    } else { TrackedSubstateInfo::Unmodified }),
+        @closure 1 := |n: &TrackedNode| -> (r: Option<&TrackedPartition>) ensures r == (match lookup(n.tracked_partitions@, partition_num) { Some(x) => Some(&x), None => None })
+        @closure 2 := |p: &TrackedPartition| -> (r: Option<&TrackedSubstate>) ensures r == (match lookup(p.substates@, db_sort_key) { Some(x) => Some(&x), None => None })
+        @closure 3 := |s: &TrackedSubstate| -> (r: TrackedSubstateInfo) ensures r == info_of(s.substate_value)
+        @*/
+
+        /*@fn radix-engine/src/track/track.rs :: impl<'s, S: SubstateDatabase, M: DatabaseKeyMapper> CommitableSubstateStore for MappedTrack<'s, S, M> :: fn create_node
+        @sig
+            requires
+                forall|a: IOAccess| (*old(on_io_access)).requires((a,)),
+                forall|p: PartitionNumber| node_substates@.contains_key(p) ==> inj_on::<M>(#[trigger] node_substates@[p]@),
+            ensures
+                *final(on_io_access) == *old(on_io_access),
+                rest_same(*old(self), *final(self)),
+                // C12 "overlaid with the transaction's own node creations": the node is (re)bound, marked new, to exactly one
+                // New cell per created substate; the database is not consulted; no other node is touched
+                ret is Ok ==> ({
+                    let nd = final(self).tracked_nodes@[node_id];
+                    &&& final(self).tracked_nodes@ == old(self).tracked_nodes@.insert(node_id, nd)
+                    &&& nd.is_new
+                    &&& created_node::<M>(node_substates@, nd.tracked_partitions@)
+                }),
+                // if the callback fails the track is as before
+                ret matches Err(e) ==> final(self).tracked_nodes == old(self).tracked_nodes,
+                ret matches Err(e) ==> exists|a: IOAccess| (*old(on_io_access)).ensures((a,), Err::<(), E>(e)),
+        @subst <<let tracked =>> => <<let r#tracked =>> why: `tracked` is a reserved word of Verus in `let` position; `r#tracked` is the SAME Rust identifier written as a raw identifier, the program is unchanged
+        @entry
+            let ghost src0 = node_substates@;
+        @loop 1 iter it1
+            invariant
+                enumerates(it1.seq(), src0),
+                forall|p: PartitionNumber| src0.contains_key(p) ==> inj_on::<M>(#[trigger] src0[p]@),
+                forall|p: PartitionNumber| tpv(tracked_partitions).contains_key(p) <==> seen(it1.seq(), it1.index@, p),
+                forall|j: int| 0 <= j < it1.index@ ==> tpv(tracked_partitions)[(#[trigger] it1.seq()[j]).0].range_read == 0
+                    && created_part::<M>(it1.seq()[j].1@, tpv(tracked_partitions)[it1.seq()[j].0].substates@),
+                *self == *old(self),
+                *on_io_access == *old(on_io_access),
+                forall|a: IOAccess| (*on_io_access).requires((a,)),
+                // exit fact (the loop's ghost iterator cannot be named after the loop)
+                it1.index@ == it1.seq().len() ==> created_node::<M>(src0, tpv(tracked_partitions)),
+        @before <<for (substate_key, substate_value) in partition>> #1
+            let ghost part0 = partition@;
+            proof { assert(src0.contains_key(it1.seq()[it1.index@].0)); assert(inj_on::<M>(part0)); }
+        @loop 2 iter it2
+            invariant
+                enumerates(it2.seq(), part0), inj_on::<M>(part0),
+                forall|k: DbSortKey| psv(partition_substates).contains_key(k) <==> seenk::<M>(it2.seq(), it2.index@, k),
+                forall|j: int| 0 <= j < it2.index@ ==> psv(partition_substates)[M::sort_key((#[trigger] it2.seq()[j]).0)] == new_cell(it2.seq()[j].0, it2.seq()[j].1),
+                *self == *old(self),
+                *on_io_access == *old(on_io_access),
+                forall|a: IOAccess| (*on_io_access).requires((a,)),
+                // exit fact
+                it2.index@ == it2.seq().len() ==> created_part::<M>(part0, psv(partition_substates)),
+        @before <<let old_tracked =>> #1
+            proof {
+                if psv(partition_substates).contains_key(db_sort_key) {
+                    assert(seenk::<M>(it2.seq(), it2.index@, db_sort_key));
+                    let j = choose|j: int| 0 <= j < it2.index@ && M::sort_key((#[trigger] it2.seq()[j]).0) == db_sort_key;
+                    assert(part0.contains_key(it2.seq()[j].0) && part0.contains_key(it2.seq()[it2.index@].0));
+                    assert(it2.seq()[j].0 == it2.seq()[it2.index@].0);
+                    assert(false);
+                }
+            }
+        @after <<let old_tracked =>> #1
+            proof {
+                assert forall|k: DbSortKey| psv(partition_substates).contains_key(k) <==> seenk::<M>(it2.seq(), it2.index@ + 1, k) by { lemma_seenk_step::<M>(it2.seq(), it2.index@, k); }
+                assert forall|j: int| 0 <= j < it2.index@ + 1 implies psv(partition_substates)[M::sort_key((#[trigger] it2.seq()[j]).0)] == new_cell(it2.seq()[j].0, it2.seq()[j].1) by {
+                    if j < it2.index@ {
+                        assert(part0.contains_key(it2.seq()[j].0) && part0.contains_key(it2.seq()[it2.index@].0));
+                        assert(it2.seq()[j].0 != it2.seq()[it2.index@].0);
+                        assert(M::sort_key(it2.seq()[j].0) != M::sort_key(it2.seq()[it2.index@].0));
+                    }
+                }
+                lemma_created_part::<M>(it2.seq(), it2.index@ + 1, part0, psv(partition_substates));
+            }
+        @after <<tracked_partitions.insert(>> #1
+            proof {
+                assert forall|p: PartitionNumber| tpv(tracked_partitions).contains_key(p) <==> seen(it1.seq(), it1.index@ + 1, p) by { lemma_seen_step(it1.seq(), it1.index@, p); }
+                assert forall|j: int| 0 <= j < it1.index@ + 1 implies tpv(tracked_partitions)[(#[trigger] it1.seq()[j]).0].range_read == 0
+                    && created_part::<M>(it1.seq()[j].1@, tpv(tracked_partitions)[it1.seq()[j].0].substates@) by {
+                    if j < it1.index@ { assert(it1.seq()[j].0 != it1.seq()[it1.index@].0); }
+                }
+                lemma_created_node::<M>(it1.seq(), it1.index@ + 1, src0, tpv(tracked_partitions));
+            }
+        @*/
+
+        /*@fn radix-engine/src/track/track.rs :: impl<'s, S: SubstateDatabase, M: DatabaseKeyMapper> MappedTrack<'s, S, M> :: fn finalize
+        @sig
+            ensures
+                match ret {
+                    // exactly the tracked substates that are marked transient are dropped (they must never reach the
+                    // database); everything else -- cells, node flags, partitions to delete -- is handed over unchanged
+                    Ok((ts, db)) => db == this.substate_db && ts.deleted_partitions == this.deleted_partitions
+                        && finalized::<M>(this.tracked_nodes@, this.transient_substates, ts.tracked_nodes@)
+                        && forall|n: NodeId, p: PartitionNumber, sk: SubstateKey| is_tr(this.transient_substates, n, p, sk) && #[trigger] cell(this.tracked_nodes@, n, p, M::sort_key(sk))
+                            ==> !(cur(val(this.tracked_nodes@, n, p, M::sort_key(sk))) matches Some(v) && v.owns()),
+                    // the only failure: a transient substate whose current value owns a node
+                    Err(e) => exists|n: NodeId, p: PartitionNumber, sk: SubstateKey| is_tr(this.transient_substates, n, p, sk) && #[trigger] cell(this.tracked_nodes@, n, p, M::sort_key(sk))
+                            && (cur(val(this.tracked_nodes@, n, p, M::sort_key(sk))) matches Some(v) && v.owns()),
+                }
+        @subst <<mut self>> => <<mut this: Self>> why: Verus does not support a `mut self` receiver; the receiver is renamed (`this`), turning the method into an associated function with the same body
+        @subst <<self.>> => <<this.>> x6 why: same renaming of the receiver
+        @entry
+            let ghost a0 = this.tracked_nodes@;
+            let ghost tr0 = this.transient_substates;
+            let ghost db0 = this.substate_db;
+            let ghost dp0 = this.deleted_partitions;
+            let ghost mut done: Set<Tr3> = Set::empty();
+        @loop 1 iter it1
+            invariant
+                enumerates(it1.seq(), tr0.transient_substates@),
+                dropped::<M>(a0, this.tracked_nodes@, done), none_owns::<M>(a0, done),
+                forall|n: NodeId, p: PartitionNumber, sk: SubstateKey| #[trigger] done.contains((n, p, sk)) ==> is_tr(tr0, n, p, sk),
+                forall|n: NodeId, p: PartitionNumber, sk: SubstateKey| #[trigger] done.contains((n, p, sk)) || !(is_tr(tr0, n, p, sk) && seen(it1.seq(), it1.index@, n)),
+                this.substate_db == db0, this.deleted_partitions == dp0,
+                // exit fact
+                it1.index@ == it1.seq().len() ==> (forall|n: NodeId, p: PartitionNumber, sk: SubstateKey| #[trigger] done.contains((n, p, sk)) <==> is_tr(tr0, n, p, sk)),
+        @before <<for (partition, substate_key) in transient_substates>> #1
+            let ghost set0 = transient_substates@;
+            proof { assert(tr0.transient_substates@.contains_key(it1.seq()[it1.index@].0)); }
+        @loop 2 iter it2
+            invariant
+                enumerates(it1.seq(), tr0.transient_substates@),
+                0 <= it1.index@ < it1.seq().len(), it1.seq()[it1.index@].0 == node_id,
+                enumerates_set(it2.seq(), set0),
+                tr0.transient_substates@.contains_key(node_id), tr0.transient_substates@[node_id]@ == set0,
+                dropped::<M>(a0, this.tracked_nodes@, done), none_owns::<M>(a0, done),
+                forall|n: NodeId, p: PartitionNumber, sk: SubstateKey| #[trigger] done.contains((n, p, sk)) ==> is_tr(tr0, n, p, sk),
+                forall|n: NodeId, p: PartitionNumber, sk: SubstateKey| #[trigger] done.contains((n, p, sk)) || !(is_tr(tr0, n, p, sk) && seen(it1.seq(), it1.index@, n)),
+                forall|p: PartitionNumber, sk: SubstateKey| #[trigger] done.contains((node_id, p, sk)) || !seen_elem(it2.seq(), it2.index@, (p, sk)),
+                this.substate_db == db0, this.deleted_partitions == dp0,
+                // exit fact
+                it2.index@ == it2.seq().len() ==> (forall|p: PartitionNumber, sk: SubstateKey| set0.contains((p, sk)) ==> #[trigger] done.contains((node_id, p, sk))),
+        @closure 1 := |tracked_node: &mut TrackedNode| -> (r: Option<&mut TrackedPartition>) ensures match r { Some(x) => old(tracked_node).tracked_partitions@.contains_key(partition) && *x == old(tracked_node).tracked_partitions@[partition] && final(tracked_node).tracked_partitions@ == old(tracked_node).tracked_partitions@.insert(partition, *final(x)) && final(tracked_node).is_new == old(tracked_node).is_new, None => !old(tracked_node).tracked_partitions@.contains_key(partition) && *final(tracked_node) == *old(tracked_node) }
+        @closure 2 := |s: TrackedSubstate| -> (r: Option<IndexedScryptoValue>) ensures r == cur(s.substate_value)
+        @before <<if let Some(tracked_partition)>> #1
+            let ghost b = this.tracked_nodes@;
+            proof {
+                assert(set0.contains(it2.seq()[it2.index@]));
+                assert(is_tr(tr0, node_id, partition, substate_key));
+            }
+        @before <<return Err(>> #1
+            proof {
+                assert(cell(b, node_id, partition, M::sort_key(substate_key)));
+                assert(cell(a0, node_id, partition, M::sort_key(substate_key)));
+                assert(subs(b, node_id, partition)[M::sort_key(substate_key)] == subs(a0, node_id, partition)[M::sort_key(substate_key)]);
+            }
+        @after <<if let Some(tracked_partition)>> #1
+            proof {
+                let b2 = this.tracked_nodes@;
+                if b.contains_key(node_id) && b[node_id].tracked_partitions@.contains_key(partition) {
+                    lemma_drop_step::<M>(a0, b, b2, done, node_id, partition, substate_key);
+                } else {
+                    assert(b2 =~= b);
+                    lemma_drop_absent::<M>(a0, b, done, node_id, partition, substate_key);
+                }
+                done = done.insert((node_id, partition, substate_key));
+                assert forall|p: PartitionNumber, sk: SubstateKey| #[trigger] done.contains((node_id, p, sk)) || !seen_elem(it2.seq(), it2.index@ + 1, (p, sk)) by {
+                    lemma_seen_elem_step(it2.seq(), it2.index@, (p, sk));
+                }
+                assert(it2.index@ + 1 == it2.seq().len() ==> (forall|p: PartitionNumber, sk: SubstateKey| set0.contains((p, sk)) ==> #[trigger] done.contains((node_id, p, sk)))) by {
+                    if it2.index@ + 1 == it2.seq().len() {
+                        assert forall|p: PartitionNumber, sk: SubstateKey| set0.contains((p, sk)) implies #[trigger] done.contains((node_id, p, sk)) by {
+                            let j = choose|j: int| 0 <= j < it2.seq().len() && it2.seq()[j] == (p, sk);
+                            assert(seen_elem(it2.seq(), it2.index@ + 1, (p, sk)));
+                        }
+                    }
+                }
+            }
+        @after <<for (partition, substate_key) in transient_substates>> #1
+            proof {
+                assert forall|n: NodeId, p: PartitionNumber, sk: SubstateKey| #[trigger] done.contains((n, p, sk)) || !(is_tr(tr0, n, p, sk) && seen(it1.seq(), it1.index@ + 1, n)) by {
+                    lemma_seen_step(it1.seq(), it1.index@, n);
+                }
+                assert(it1.index@ + 1 == it1.seq().len() ==> (forall|n: NodeId, p: PartitionNumber, sk: SubstateKey| #[trigger] done.contains((n, p, sk)) <==> is_tr(tr0, n, p, sk))) by {
+                    if it1.index@ + 1 == it1.seq().len() {
+                        assert forall|n: NodeId, p: PartitionNumber, sk: SubstateKey| is_tr(tr0, n, p, sk) implies #[trigger] done.contains((n, p, sk)) by {
+                            lemma_seen_all(it1.seq(), tr0.transient_substates@, n);
+                        }
+                    }
+                }
+            }
+        @before <<Ok((>> #1
+            proof { lemma_finalized::<M>(a0, this.tracked_nodes@, tr0, done); }
+        @*/
+    }
+
+    // ==================================================================================================
+    // C12 read-your-writes, at the level of the Track API: compositions of the contracts above (hand-written
+    // callers, no repo code).  `never` is a callback about which NOTHING is assumed -- not even that it may be
+    // called: a call that verifies with it makes no IO access (and, by the same branch, no database read).
+    // ==================================================================================================
+    pub open spec fn opt_val(o: Option<&V>) -> Option<V> { match o { Some(x) => Some(*x), None => None } }
+    pub proof fn lemma_cur_loaded(o: Option<V>) ensures cur(loaded(o)) == o, base(loaded(o)) == Some(o), !written(loaded(o)), !fresh(loaded(o)) {}
+
+    /// a read after `set_substate(k, v)` returns v -- from the cache -- whatever was tracked or stored before and
+    /// whatever the IO callback answered
+    pub fn write_then_read<'s, S: SubstateDatabase, M: DatabaseKeyMapper, E, F: FnMut(IOAccess) -> Result<(), E>, G: FnMut(IOAccess) -> Result<(), E>>(
+        t: &mut MappedTrack<'s, S, M>, n: NodeId, p: PartitionNumber, sk: SubstateKey, v: IndexedScryptoValue, io: &mut F, never: &mut G)
+        requires forall|a: IOAccess| (*old(io)).requires((a,)),
+    {
+        let ghost v0 = v;
+        let sk2 = sk.clone();
+        let _ = t.set_substate(n, p, sk, v, io);
+        let g = t.get_substate(&n, p, &sk2, never);
+        assert(g is Ok && opt_val(g->Ok_0) == Some(v0));
+    }
+
+    /// ... and a read of ANY OTHER cell after the write answers what it would have answered before
+    pub fn write_then_read_other<'s, S: SubstateDatabase, M: DatabaseKeyMapper, E, F: FnMut(IOAccess) -> Result<(), E>>(
+        t: &mut MappedTrack<'s, S, M>, n: NodeId, p: PartitionNumber, sk: SubstateKey, v: IndexedScryptoValue,
+        n2: NodeId, p2: PartitionNumber, sk2: SubstateKey, io: &mut F)
+        requires
+            forall|a: IOAccess| (*old(io)).requires((a,)),
+            db_wf(old(t).substate_db.view()),
+            !(n2 == n && p2 == p && M::sort_key(sk2) == M::sort_key(sk)),
+    {
+        let ghost a = t.tracked_nodes@;
+        let ghost k = M::sort_key(sk);
+        let _ = t.set_substate(n, p, sk, v, io);
+        proof { lemma_upd_cells(a, t.tracked_nodes@, n, p, k, subs(t.tracked_nodes@, n, p)[k]); }
+        let g = t.get_substate(&n2, p2, &sk2, io);
+        assert(g matches Ok(x) ==> opt_val(x) == overlay::<M>(a, old(t).transient_substates, old(t).substate_db.view(), n2, p2, sk2));
+    }
+
+    /// a read after a (successful) removal returns nothing -- from the cache; the removal itself returned what a
+    /// read would have returned
+    pub fn remove_then_read<'s, S: SubstateDatabase, M: DatabaseKeyMapper, E, F: FnMut(IOAccess) -> Result<(), E>, G: FnMut(IOAccess) -> Result<(), E>>(
+        t: &mut MappedTrack<'s, S, M>, n: NodeId, p: PartitionNumber, sk: SubstateKey, io: &mut F, never: &mut G)
+        requires forall|a: IOAccess| (*old(io)).requires((a,)), db_wf(old(t).substate_db.view()),
+    {
+        let r = t.remove_substate(&n, p, &sk, io);
+        if r.is_ok() {
+            assert(r->Ok_0 == overlay::<M>(old(t).tracked_nodes@, old(t).transient_substates, old(t).substate_db.view(), n, p, sk));
+            let g = t.get_substate(&n, p, &sk, never);
+            assert(g is Ok && g->Ok_0 is None);
+        }
+    }
+
+    /// the first read of an untracked cell caches it: a second read is served without IO and returns the same
+    pub fn read_twice<'s, S: SubstateDatabase, M: DatabaseKeyMapper, E, F: FnMut(IOAccess) -> Result<(), E>, G: FnMut(IOAccess) -> Result<(), E>>(
+        t: &mut MappedTrack<'s, S, M>, n: NodeId, p: PartitionNumber, sk: SubstateKey, io: &mut F, never: &mut G)
+        requires forall|a: IOAccess| (*old(io)).requires((a,)), db_wf(old(t).substate_db.view()),
+    {
+        let ghost first: Option<V>;
+        let r = t.get_substate(&n, p, &sk, io);
+        match r {
+            Ok(x) => {
+                proof {
+                    first = opt_val(x);
+                    lemma_cur_loaded(below::<M>(old(t).transient_substates, old(t).substate_db.view(), n, p, sk));
+                }
+            }
+            Err(_) => { return; }
+        }
+        let g = t.get_substate(&n, p, &sk, never);
+        assert(g is Ok && opt_val(g->Ok_0) == first);
+    }
+
+    /// a removal after a write returns the written value (and a read of the other cells is unaffected, as above)
+    pub fn write_then_remove<'s, S: SubstateDatabase, M: DatabaseKeyMapper, E, F: FnMut(IOAccess) -> Result<(), E>>(
+        t: &mut MappedTrack<'s, S, M>, n: NodeId, p: PartitionNumber, sk: SubstateKey, v: IndexedScryptoValue, io: &mut F)
+        requires forall|a: IOAccess| (*old(io)).requires((a,)), db_wf(old(t).substate_db.view()),
+    {
+        let ghost v0 = v;
+        let sk2 = sk.clone();
+        let _ = t.set_substate(n, p, sk, v, io);
+        let r = t.remove_substate(&n, p, &sk2, io);
+        assert(r matches Ok(x) ==> x == Some(v0));
     }
 }
 } // verus!
